@@ -398,6 +398,23 @@ func genOp(g *common.Gen) {
 			tail = 0
 		}
 		g.Stat("cmd." + module + "." + verb)
+		if module == "faces" && verb == "destroy" && r.Chance(1, 2) {
+			// give the face that is about to go routes (two origins) and a next hop first
+			for _, fid := range []string{"3", "4", "5", "2", "7"} {
+				if strings.Contains(params, "F="+fid+";") || strings.HasSuffix(params, "F="+fid) {
+					n := common.Pick(r, routeNames)
+					g.Op("cmd %d - %s %s %s 1 N=%s;F=%s", fA, pLocalhost, gc("rib"), gc("register"), n, fid)
+					if r.Chance(1, 2) {
+						g.Op("cmd %d - %s %s %s 1 N=%s;F=%s;O=65;C=7", fA, pLocalhost, gc("rib"), gc("register"), n, fid)
+					}
+					if r.Chance(1, 2) {
+						g.Op("cmd %d - %s %s %s 1 N=%s;F=%s", fA, pLocalhost, gc("fib"), gc("add-nexthop"), common.Pick(r, routeNames), fid)
+					}
+					g.Stat("destroy.with-routes")
+					break
+				}
+			}
+		}
 		emit(gc(module), gc(verb), tail, params)
 		// follow-ups that observe liveness
 		if module == "faces" && verb == "update" && strings.Contains(params, "X=") {
